@@ -177,14 +177,14 @@ def body_init_security(usechroot: bool, setuid: bool, setgid: bool, fail: int, e
     norm = []
     for c in got:
         if c[0] == "chdir":
-            hx.require(c[1] == "/", "C19:chdir-not-inside-new-root", repr(c))
+            hx.require(c[1] == "/", "C19:chdir-not-inside-new-root", lambda: repr(c))
             norm.append(("chdir",))
         else:
             norm.append(c)
     if 0 <= fail < len(exp):
         # the failing call is the last one recorded, and the exception propagated
-        hx.require(raised is not None, "C19:failure-swallowed", "call %d failed but init_security returned normally; calls=%r" % (fail, got))
-        hx.require(norm == exp[: fail + 1], "C19:calls-after-failure", "expected %r got %r" % (exp[: fail + 1], norm))
+        hx.require(raised is not None, "C19:failure-swallowed", lambda: "call %d failed but init_security returned normally; calls=%r" % (fail, got))
+        hx.require(norm == exp[: fail + 1], "C19:calls-after-failure", lambda: "expected %r got %r" % (exp[: fail + 1], norm))
         return True
     hx.require(raised is None, "C19:harness", "unexpected failure")
     if norm != exp:
@@ -192,7 +192,7 @@ def body_init_security(usechroot: bool, setuid: bool, setgid: bool, fail: int, e
             raise hx.Violation("C19:no-chdir-after-chroot", "calls=%r" % (got,))
         raise hx.Violation("C19:wrong-sequence", "expected %r got %r" % (exp, norm))
     # root rewritten to "/" iff chrooted
-    hx.require(cfg.get("pygopherd", "root") == ("/" if usechroot else ROOT), "C19:root-not-rewritten", repr(cfg.get("pygopherd", "root")))
+    hx.require(cfg.get("pygopherd", "root") == ("/" if usechroot else ROOT), "C19:root-not-rewritten", lambda: repr(cfg.get("pygopherd", "root")))
     return True
 
 
@@ -309,20 +309,20 @@ def body_initialize(enable_tls: bool, usechroot: bool, setuid: bool, setgid: boo
     hx.reach()
     priv = ("chroot", "chdir", "setgroups", "setregid", "setreuid")
     if 0 <= fail < len(ev) or raised is not None:
-        hx.require(raised is not None and srv is None, "C19:startup-failure-swallowed", "events=%r" % (ev,))
-        hx.require(len(ev) == fail + 1, "C19:steps-after-failure", "events=%r fail=%d" % (ev, fail))
+        hx.require(raised is not None and srv is None, "C19:startup-failure-swallowed", lambda: "events=%r" % (ev,))
+        hx.require(len(ev) == fail + 1, "C19:steps-after-failure", lambda: "events=%r fail=%d" % (ev, fail))
         return True
     first_priv = min([i for i, e in enumerate(ev) if e in priv] or [len(ev)])
-    hx.require("bind" in ev and ev.index("bind") < first_priv, "C19:bind-after-privdrop", "events=%r" % (ev,))
+    hx.require("bind" in ev and ev.index("bind") < first_priv, "C19:bind-after-privdrop", lambda: "events=%r" % (ev,))
     if enable_tls:
-        hx.require("load_cert_chain" in ev and ev.index("load_cert_chain") < first_priv, "C19:keys-after-privdrop", "events=%r" % (ev,))
+        hx.require("load_cert_chain" in ev and ev.index("load_cert_chain") < first_priv, "C19:keys-after-privdrop", lambda: "events=%r" % (ev,))
     # the lookups must precede chroot (inside the chroot /etc/passwd may not exist)
     if usechroot:
         ci = ev.index("chroot") if "chroot" in ev else -1
-        hx.require(ci >= 0, "C19:no-chroot", "events=%r" % (ev,))
+        hx.require(ci >= 0, "C19:no-chroot", lambda: "events=%r" % (ev,))
         for look in ("getpwnam", "getgrnam"):
             if look in ev:
-                hx.require(ev.index(look) < ci, "C19:lookup-after-chroot", "events=%r" % (ev,))
+                hx.require(ev.index(look) < ci, "C19:lookup-after-chroot", lambda: "events=%r" % (ev,))
     return True
 
 
